@@ -1,4 +1,50 @@
-"""C18 - CPX framing and routing preserve packets under any stream fragmentation.  (work in progress)"""
+"""C18 - CPX framing and routing preserve packets under any stream fragmentation.
+
+Wire formats (specification, stated independently of the library code; assumptions about the peer):
+ * CPX header, two bytes (struct CPXRoutingPacked_t of the AI-deck / Crazyflie firmware, not in the sandbox - trusted):
+   byte 0 = destination (bits 0-2) | source (bits 3-5) | lastPacket (bit 6) | reserved (bit 7),
+   byte 1 = function (bits 0-5) | version (bits 6-7); the only supported version is 0;
+ * CPX over TCP: every packet is preceded by a 16-bit little-endian count of the bytes that follow (header + payload);
+   the library uses the unprefixed struct code 'H' -> little-endian host assumed (reported by the engine);
+ * CRTP over CPX: payload = CRTP header byte followed by the CRTP payload, HOST <-> STM32, function CRTP.
+
+Environment model (trusted, in this file): `stream_socket` / `free_stream_socket` - a connected, blocking TCP socket
+whose recv(n) returns a NON-EMPTY prefix of the unread stream of length <= n chosen by the environment; with nothing left
+it blocks for ever (pseudo exception Deadlock).  A peer that closes the connection (recv returning b'') is outside the
+model (and outside the property: the stream carries the packets).  queue.Queue is FIFO (engine model / real queue natively).
+
+Contract families -> clauses of DESIGN.md section C18:
+ 1. codec.roundtrip.*, codec.decode.*      header round trip for all 4 x 4 x 7 x 2 combinations; all 65,536 header values decoded,
+                                           version != 0 -> RuntimeError (payload lengths enumerated: 0, 1, 30 / 0, 2)
+ 2. tcp.write.*                            frame layout of writePacket, 16-bit limit (65533 ok, 65534 refused, never wraps)
+    tcp.readData.inductive                 _readData for EVERY size and EVERY fragmentation (loop invariant + variant)
+    tcp.readPacket.inductive               readPacket at any frame boundary, EVERY payload length 0..65533 and fragmentation, modular
+                                           on the contract of _readData (induction step of "k frames are read back as k packets")
+    tcp.readPacket.short_frame.*           length field 0 / 1 (no room for a CPX header)
+    tcp.readData.<n>_of_<m>, tcp.reassembly.*   the same statements on short streams with the REAL loops and no summaries:
+                                           writePacket^k -> every fragmentation -> readPacket^k (exhaustive, bounded)
+ 3. router.dispatch.*, router.sendPacket   one queue per function value, arrival order, identical objects, only to receivers of
+                                           that function (function values symbolic, 0..63); unregistered function -> dropped
+    pipeline.*                             stream -> real transport -> real router loop -> receivers, incl. an unsupported-version
+                                           frame in the middle of the stream (rejected, framing kept)
+ 4. TcpDriver.send_packet, SerialDriver.send_packet     uplink tunnel, all 256 headers x payload lengths 0..30 (complete)
+    tcpdriver.receive_thread, serialdriver.receive_thread (+ .no_crtp_header)   downlink tunnel, same quantification
+    tcpdriver.downlink.end_to_end          stream -> ... -> driver queue on one sequential schedule
+
+NOT covered (and why):
+ * thread interleavings: the router thread, the drivers' receive threads and the client thread run here on sequential
+   schedules (service loops are run for a scripted number of events and left by the pseudo exceptions StopLoop / Deadlock);
+   concurrent receivePacket / run on the same queue rely on queue.Queue being thread safe; `disconnect()` setting
+   `_socket = None` while `_readData` loops, `_CPXReceiveThread.stop()` and `CPXRouter.transport()` are not analysed;
+ * UARTTransport (0xFF start byte, XOR checksum, CTS flow control with a lock released by the reader): the property is
+   about the TCP stream; the serial driver is covered from CRTP packet to CPX packet (wire data) only;
+ * encoding (`_get_wire_data`) for a payload of symbolic length: the engine cannot extend a concrete bytearray by a
+   symbolic-length sequence, so encode / writePacket are proved for the enumerated payload lengths 0, 1, 30 (and 65533/65534
+   with concrete content); decoding and re-assembly ARE proved for every length (tcp.readPacket.inductive);
+ * `CPXPacket.length` is fixed by the constructor: a caller that replaces `data` afterwards gets a wrong frame length from
+   writePacket - not reachable through the drivers under contract (they build the packet in one go), not part of the clauses;
+ * CPXRouter.makeTransaction, CPX.close, connect() of the drivers (real sockets / serial ports, URI parsing).
+"""
 from pyvc.api import contract
 
 CPX = 'cflib.cpx'
@@ -564,7 +610,7 @@ def read_data_inductive(c):
 
 
 @contract('C18', 'tcp.readPacket.inductive', [TRN + ':SocketTransport.readPacket', CPX + ':CPXPacket.__init__', CODEC[2]],
-          clause='readPacket on a stream that starts with a frame <16-bit length><header b0 b1><payload P> consumes exactly that '
+          clause='readPacket at a frame boundary of a stream <frames already read> <16-bit length><header b0 b1><payload P> <rest> consumes exactly that '
                  'frame and returns the packet it encodes (fields from the header bits, payload == P), for EVERY payload length '
                  '0..65533, every content, every fragmentation; _readData is used through its contract (tcp.readData.inductive); '
                  'frames that do not decode (unsupported version, values outside the enumerations) raise AFTER the frame has been '
@@ -573,16 +619,17 @@ def read_data_inductive(c):
 def read_packet_inductive(c):
     c.int('b0', 0, 255), c.int('b1', 0, 255)
     P = c.seq('P', 'bytes', 65533)
-    rest = c.seq('rest', 'bytes', 10)
-    S = c.snapshot('S', "pack('<HBB', 2 + len(P), b0, b1) + P + rest")
-    ghost = c.ext('ghost', attrs={'pos': 0})
+    pre = c.seq('pre', 'bytes', 100000)       # the frames already consumed ...
+    rest = c.seq('rest', 'bytes', 100000)     # ... and the ones still to come (induction step over the packet sequence)
+    S = c.snapshot('S', "pre + pack('<HBB', 2 + len(P), b0, b1) + P + rest")
+    ghost = c.ext('ghost', attrs={'pos': c.snapshot('start', 'len(pre)')})
     rx = transport(c, free_stream_socket(c, S, ghost))
     if c.backend == 'sym':
         import z3
         from pyvc.values import SSeq, PBytearray
         from pyvc.ops import zterm, mk_int, mk_bool
         n = 2 + z3.Length(P.t)
-        b0, b1 = zterm(c.get('b0')), zterm(c.get('b1'))
+        b0, b1, start = zterm(c.get('b0')), zterm(c.get('b1')), z3.Length(pre.t)
 
         def read_data(I, f, args, kwargs):
             """contract of _readData (proved in tcp.readData.inductive): returns S[pos:pos+size], pos += size.
@@ -594,10 +641,10 @@ def read_packet_inductive(c):
                 I.raise_py('Deadlock', 'stream exhausted')
             ghost.attrs['pos'] = mk_int(pos + size)
             generic = z3.SubSeq(S.t, pos, size)
-            if I.path.must(z3.And(pos == 0, size == 2)):
+            if I.path.must(z3.And(pos == start, size == 2)):
                 val = PBytearray([mk_int(n % 256), mk_int((n / 256) % 256)])
                 term = z3.Concat(z3.Unit(n % 256), z3.Unit((n / 256) % 256))
-            elif I.path.must(z3.And(pos == 2, size == n)):
+            elif I.path.must(z3.And(pos == start + 2, size == n)):
                 term = z3.Concat(z3.Unit(b0), z3.Unit(b1), P.t)
                 val = SSeq(term, 'bytearray')
             else:
@@ -608,7 +655,7 @@ def read_packet_inductive(c):
     c.call((rx, 'readPacket'))
     c.snapshot('ver', 'b1 >> 6')
     c.snapshot('valid', '((b0 >> 3) & 7) in %r and (b0 & 7) in %r and (b1 & 0x3F) in %r' % (TARGETS, TARGETS, FUNCTIONS))
-    c.ensure('frame-consumed-exactly-whatever-the-outcome', 'ghost.pos == 4 + len(P)')
+    c.ensure('frame-consumed-exactly-whatever-the-outcome', 'ghost.pos == start + 4 + len(P)')
     c.ensure('accepted-iff-version-0-and-enumerated', 'iff(raised is None, ver == 0 and valid)')
     c.ensure('unsupported-version-rejected', "implies(ver != 0, raised == 'RuntimeError')")
     c.ensure('only-declared-errors', "raised in (None, 'RuntimeError', 'ValueError')")
